@@ -149,6 +149,29 @@ fn run2(c: &mut Ctx) {
     let size = model.extent();
     let n = c.rng.int(30, 200);
     let samples = sample_curve(c, &refp, closed, n);
+    // "enough features to fix all degrees of freedom": the samples (not only the shape) must
+    // constrain two translations and the rotation, e.g. a Z whose middle bar received no sample is
+    // two parallel lines and lets the points slide.  The normal equations of the point-to-line
+    // problem at the true pose must be well conditioned.
+    {
+        use parry2d_f64::na::Matrix3;
+        let ctr0 = mean_point(&samples);
+        let mut h = Matrix3::<f64>::zeros();
+        for p in &samples {
+            let (_, e) = oracle::brute_poly2(model.v.as_slice(), p);
+            let ed = (model.v[e + 1] - model.v[e]).normalize();
+            let nrm = Vector2::new(-ed.y, ed.x);
+            let r = (p - ctr0) / size;
+            let row = parry2d_f64::na::Vector3::new(nrm.x, nrm.y, r.x * nrm.y - r.y * nrm.x);
+            h += row * row.transpose();
+        }
+        let ev = h.symmetric_eigenvalues();
+        let (lo, hi) = (ev.iter().cloned().fold(f64::INFINITY, f64::min), ev.iter().cloned().fold(0.0, f64::max));
+        if !(lo > 1e-3 * hi) {
+            c.note("align2: sample set does not constrain all degrees of freedom (case not used)");
+            return;
+        }
+    }
     let in_basin = c.rng.chance(0.8);
     let (tb, rb) = if in_basin { (B2_T * size * 0.5 * basin_mult(), B2_R * 0.5 * basin_mult()) } else { (0.5 * size, PI / 3.0) };
     let ctr = mean_point(&samples);
